@@ -335,13 +335,53 @@ def run(facts, tier, ctx):
             continue
         aggs = [(bi, si, s["rv"]) for bi, si, s in d.iter_stmts()
                 if s["k"] == "assign" and s["rv"]["k"] == "agg" and s["rv"].get("adt") == ty and s["dst"]["l"] == 0]
-        if len(aggs) != 1:
+        direct = len(aggs) == 1
+        if direct:
+            rv = aggs[0][2]
+            vdef = [v for v in facts.adts[ty]["variants"] if v["name"] == rv["variant"]][0]
+            for fld, op in zip(vdef["fields"], rv["ops"]):
+                defaults[(ty, rv["variant"], fld["name"])] = sources(d, op)
+            defaults[(ty, "<variant>", "")] = rv["variant"]
+        # value-level view from the effect interpreter: helpers (`Self::uniform(true)`, `const DEFAULT: Self`), locals and
+        # named constants are folded; nested config defaults stay calls.  It replaces the direct view where the default is
+        # not one literal aggregate, and refines operands the direct view could not resolve to a constant.
+        from . import lib_effect as E
+        try:
+            ectx = E.Ctx(facts)
+            ectx.noinline = [r"<config::\w+ as std::default::Default>::default$"]
+            itp = E.Interp(ectx, d)
+            itp.run()
+            rvv = E.strip_casts(itp.retval)
+            hops = 0
+            while isinstance(rvv, tuple) and rvv and rvv[0] == "c" and rvv[2] in facts.bodies and hops < 3:
+                # `const DEFAULT: Self = Self { .. }`: read the constant's own body
+                hops += 1
+                itc = E.Interp(ectx, facts.bodies[rvv[2]])
+                itc.run()
+                rvv = E.strip_casts(itc.retval)
+        except Exception:
+            rvv = None
+        if isinstance(rvv, tuple) and rvv and rvv[0] == "agg" and rvv[1] == ty:
+            vdef = [v for v in facts.adts[ty]["variants"] if v["name"] == rvv[2]]
+            if vdef and len(vdef[0]["fields"]) == len(rvv[3]):
+                for fld, val in zip(vdef[0]["fields"], rvv[3]):
+                    key = (ty, rvv[2], fld["name"])
+                    v0 = E.strip_casts(val)
+                    item = None
+                    if isinstance(v0, tuple) and v0[0] == "c":
+                        item = ("const", str(v0[1]), v0[2], v0[1])
+                    elif isinstance(v0, tuple) and v0[0] == "call" and re.search(r"as std::default::Default>::default$", v0[1]):
+                        item = ("call", v0[1], 0)
+                    elif isinstance(v0, tuple) and v0[0] == "agg" and v0[2] == "None":
+                        item = ("agg", v0[1], "None")
+                    cur = defaults.get(key)
+                    unresolved = cur is None or len(cur) != 1 or cur[0][0] not in ("const", "agg") and not (
+                        cur[0][0] == "call" and "Default>::default" in str(cur[0][1]))
+                    if item is not None and unresolved:
+                        defaults[key] = [item]
+                defaults.setdefault((ty, "<variant>", ""), rvv[2])
+        if (ty, "<variant>", "") not in defaults:
             raise FactError("%s: expected one result aggregate, found %d" % (d.id, len(aggs)))
-        rv = aggs[0][2]
-        vdef = [v for v in facts.adts[ty]["variants"] if v["name"] == rv["variant"]][0]
-        for fld, op in zip(vdef["fields"], rv["ops"]):
-            defaults[(ty, rv["variant"], fld["name"])] = sources(d, op)
-        defaults[(ty, "<variant>", "")] = rv["variant"]
 
     # ---------------------------------------------------------------- DEFAULTS
     par = facts.tag in ("F1", "F2", "F3")
@@ -391,7 +431,8 @@ def run(facts, tier, ctx):
                     why = "documented literal `%s`" % lit
                 elif dd[0] == "path":
                     cands = resolve_cited(facts, dd[1])
-                    ok = s[0] == "const" and s[2] in cands
+                    cvals = [facts.const_value(c) for c in cands if facts.const_value(c) is not None]
+                    ok = s[0] == "const" and (s[2] in cands or (len(s) > 3 and s[3] is not None and s[3] in cvals))
                     why = "documented constant %s (= %s)" % (dd[1], " | ".join(cands))
                 else:
                     why = "unparsed doc default %r" % (dd[1],)
@@ -550,8 +591,21 @@ def run(facts, tier, ctx):
                                 if s["k"] == "assign" and s["dst"]["l"] == 0 and s["rv"]["k"] == "use"]
                         if len(rets) == 1:
                             fsrc = sources(fb, rets[0])
+                    # a default-providing fn that Default::default itself calls is trivially the same value
+                    if dsrc and len(dsrc) == 1 and dsrc[0][0] == "call" and dsrc[0][1] == fnid:
+                        fsrc = dsrc = [("const", fnid, fnid, fnid)]
+                    if fb is not None and not (fsrc and len(fsrc) == 1 and fsrc[0][0] == "const"):
+                        try:
+                            from . import lib_effect as E
+                            it2 = E.Interp(E.Ctx(facts), fb)
+                            it2.run()
+                            v2 = E.strip_casts(it2.retval)
+                            if isinstance(v2, tuple) and v2[0] == "c":
+                                fsrc = [("const", str(v2[1]), v2[2], v2[1])]
+                        except Exception:
+                            pass
                     if fsrc and dsrc and len(fsrc) == 1 and len(dsrc) == 1 and fsrc[0][0] == "const" \
-                            and dsrc[0][0] == "const" and fsrc[0][2] == dsrc[0][2] and fsrc[0][3] == dsrc[0][3]:
+                            and dsrc[0][0] == "const" and fsrc[0][3] == dsrc[0][3] and fsrc[0][3] is not None:
                         r_abs.ok({"field": "%s::%s.%s" % (ty, variant, fname), "absent": fnid,
                                   "equals": dsrc[0][2], "verdict": "ok"})
                     else:
